@@ -29,10 +29,11 @@ type obs struct {
 	len             int
 	op              string
 	pcrel, pcreloff int
+	opcode          uint32
 }
 
 func (o obs) String() string {
-	return fmt.Sprintf("err=%s len=%d op=%s pcrel=%d pcreloff=%d", o.err, o.len, o.op, o.pcrel, o.pcreloff)
+	return fmt.Sprintf("err=%s len=%d op=%s pcrel=%d pcreloff=%d opcode=0x%x", o.err, o.len, o.op, o.pcrel, o.pcreloff, o.opcode)
 }
 
 func errClass(err error) string {
@@ -71,7 +72,7 @@ func goomDecode(b []byte) (o obs) {
 		}
 	}()
 	in, err := Decode(b, 64)
-	return obs{errClass(err), in.Len, in.Op.String(), in.PCRel, in.PCRelOff}
+	return obs{errClass(err), in.Len, in.Op.String(), in.PCRel, in.PCRelOff, in.Opcode}
 }
 
 func refDecode(b []byte) (o obs) {
@@ -81,7 +82,7 @@ func refDecode(b []byte) (o obs) {
 		}
 	}()
 	in, err := refx86.Decode(b, 64)
-	return obs{refErrClass(err), in.Len, in.Op.String(), in.PCRel, in.PCRelOff}
+	return obs{refErrClass(err), in.Len, in.Op.String(), in.PCRel, in.PCRelOff, in.Opcode}
 }
 
 // oracle is the property stated on goom's own answer (independent of model and reference).
@@ -102,6 +103,8 @@ func oracle(b []byte, o obs) string {
 		return "PC-relative field outside the instruction"
 	case o.pcrel == 0 && o.pcreloff != 0:
 		return "PCRelOff set without PCRel"
+	case o.err == "ok" && o.pcrel != 0 && o.opcode == 0:
+		return "PC-relative instruction with Opcode == 0"
 	}
 	return ""
 }
